@@ -626,7 +626,13 @@ pub fn run(ctx: &mut Ctx) {
     });
     ctx.prop_check("histories", cases, strat, |ctx, h| run_hist(ctx, h));
 
-    let (ccases, rounds) = ctx.tier.pick((12u32, 2000u32), (60u32, 20_000u32));
+    let (ccases, rounds) = ctx.tier.pick((12u32, 2000u32), (40u32, 10_000u32));
     let cstrat = (2u8..=16, Just(rounds), 0u8..4, prop_oneof![2 => Just(false), 1 => Just(true)]).prop_map(|(threads, rounds, base_page, switch_log)| ConcCase { threads, rounds, base_page, switch_log });
-    ctx.prop_check("concurrent_writers", ccases, cstrat, |ctx, c| run_conc(ctx, c));
+    // the spin-barrier rounds need the cores for themselves: in a sharded (thorough) run only shard 0 executes them, all of them
+    let shard = ctx.shard;
+    if shard.0 == 0 {
+        ctx.shard = (0, 1);
+        ctx.prop_check("concurrent_writers", ccases, cstrat, |ctx, c| run_conc(ctx, c));
+        ctx.shard = shard;
+    }
 }
